@@ -136,24 +136,11 @@ def modname(key):
     return key[:-5] if key.endswith(".init") else key.split(".", 1)[1]
 
 
-def pub_observation_ok(ev, oc):
-    """the property, on one public observation"""
-    k = ev[0]
-    if k == "read" and ev[1] == "pub":
-        return oc == "OSame"
-    if k == "has" and ev[1] == "pub":
-        c = can["read"].get((ev[2], ev[3]))
-        return oc == "(OBool %s)" % ("true" if c and c[0] == "val" else "false")
-    if k == "calc" and ev[2] == "pub":
-        return oc == "OSame"
-    if k == "import" or (k == "init" and ev[2] == "pub"):
-        return oc == "OOk"
-    return True
+pub_observation_ok = lambda ev, oc: c09_ok(ev, oc, can)
 
 
-def observe(h):
-    r = run_child(h)["out"]
-    return [classify(e, o, can) for e, o in zip(h, r)]
+_observe = observe
+observe = lambda h: _observe(h, can)
 
 
 buckets = {}
@@ -180,6 +167,14 @@ for key, (prefix, oc) in sorted(buckets.items(), key=lambda kv: len(kv[1][0])):
             out.append(not pub_observation_ok(cand[-1], o[-1]) and o[-1] == oc)
         return out
     m = minimise(prefix, still_fails)
+
+    def viol_last(cands):
+        out = []
+        for cand, res in zip(cands, run_children(cands)):
+            oo = [classify(e, r, can) for e, r in zip(cand, res["out"])]
+            out.append(not pub_observation_ok(cand[-1], oo[-1]))
+        return out
+    m = prefer_read(m, "pub", viol_last)
     o = observe(m)
     before = m[:-1]
     grp = set(event_groups(m[-1]))
@@ -196,8 +191,9 @@ for key, (prefix, oc) in sorted(buckets.items(), key=lambda kv: len(kv[1][0])):
     if sig in seen_sig:
         continue
     seen_sig.add(sig)
-    what = ("after [%s] the public table serves %s for `%s` (the canonical order serves the loaded data)"
-            % ("; ".join(text_event(e) for e in before), o[-1], text_event(m[-1])))
+    what = ("after [%s], `%s` %s; in the canonical order (plain reads in a fresh interpreter) it gives %s"
+            % ("; ".join(text_event(e) for e in m[:-1]), text_event(m[-1]), words(o[-1]),
+               "the loaded data" if m[-1][0] in ("read", "calc") else "the opposite / no exception"))
     fails.append(dict(signature=sig, what=what, history=m, history_text=[text_event(e) for e in m],
                       outcomes=o, expected="every public observation is what the canonical order serves"))
 
